@@ -33,18 +33,23 @@ void __tsan_vptr_read(void *) {}
 RW(1) RW(2) RW(4) RW(8) RW(16)
 void __tsan_read_range(void *p, long n) { simsched::mem_access(p, n > 16 ? 16 : (unsigned)n, false); }
 void __tsan_write_range(void *p, long n) { simsched::mem_access(p, n > 16 ? 16 : (unsigned)n, true); }
-// std::atomic inside instrumented code: plain builtins (the simulator learns about atomics through sim_std.h)
+// atomics inside instrumented code.  Those of std::atomic<T> arrive here from within sim_atomic (sim_std.h), which has told
+// the simulator already; any other (GCC builtins, atomic_ref, C atomics) is announced from here: scheduling point before,
+// happens-before transfer after, like every atomic.
+#define EVB(a, k) bool ev_ = simsched::atomic_cb_begin((const void *)(a), k)
+#define EVE(a, k) if (ev_) simsched::atomic_cb_end((const void *)(a), k)
 #define AT(bits, T) \
-  T __tsan_atomic##bits##_load(const volatile void *a, int) { return __atomic_load_n((const volatile T *)a, __ATOMIC_SEQ_CST); } \
-  void __tsan_atomic##bits##_store(volatile void *a, T v, int) { __atomic_store_n((volatile T *)a, v, __ATOMIC_SEQ_CST); } \
-  T __tsan_atomic##bits##_exchange(volatile void *a, T v, int) { return __atomic_exchange_n((volatile T *)a, v, __ATOMIC_SEQ_CST); } \
-  T __tsan_atomic##bits##_fetch_add(volatile void *a, T v, int) { return __atomic_fetch_add((volatile T *)a, v, __ATOMIC_SEQ_CST); } \
-  T __tsan_atomic##bits##_fetch_sub(volatile void *a, T v, int) { return __atomic_fetch_sub((volatile T *)a, v, __ATOMIC_SEQ_CST); } \
-  T __tsan_atomic##bits##_fetch_and(volatile void *a, T v, int) { return __atomic_fetch_and((volatile T *)a, v, __ATOMIC_SEQ_CST); } \
-  T __tsan_atomic##bits##_fetch_or(volatile void *a, T v, int) { return __atomic_fetch_or((volatile T *)a, v, __ATOMIC_SEQ_CST); } \
-  T __tsan_atomic##bits##_fetch_xor(volatile void *a, T v, int) { return __atomic_fetch_xor((volatile T *)a, v, __ATOMIC_SEQ_CST); } \
-  bool __tsan_atomic##bits##_compare_exchange_strong(volatile void *a, void *e, T v, int, int) { return __atomic_compare_exchange_n((volatile T *)a, (T *)e, v, 0, __ATOMIC_SEQ_CST, __ATOMIC_SEQ_CST); } \
-  bool __tsan_atomic##bits##_compare_exchange_weak(volatile void *a, void *e, T v, int, int) { return __atomic_compare_exchange_n((volatile T *)a, (T *)e, v, 0, __ATOMIC_SEQ_CST, __ATOMIC_SEQ_CST); }
+  T __tsan_atomic##bits##_load(const volatile void *a, int) { EVB(a, 0); T r = __atomic_load_n((const volatile T *)a, __ATOMIC_SEQ_CST); EVE(a, 0); return r; } \
+  void __tsan_atomic##bits##_store(volatile void *a, T v, int) { EVB(a, 1); __atomic_store_n((volatile T *)a, v, __ATOMIC_SEQ_CST); EVE(a, 1); } \
+  T __tsan_atomic##bits##_exchange(volatile void *a, T v, int) { EVB(a, 2); T r = __atomic_exchange_n((volatile T *)a, v, __ATOMIC_SEQ_CST); EVE(a, 2); return r; } \
+  T __tsan_atomic##bits##_fetch_add(volatile void *a, T v, int) { EVB(a, 2); T r = __atomic_fetch_add((volatile T *)a, v, __ATOMIC_SEQ_CST); EVE(a, 2); return r; } \
+  T __tsan_atomic##bits##_fetch_sub(volatile void *a, T v, int) { EVB(a, 2); T r = __atomic_fetch_sub((volatile T *)a, v, __ATOMIC_SEQ_CST); EVE(a, 2); return r; } \
+  T __tsan_atomic##bits##_fetch_and(volatile void *a, T v, int) { EVB(a, 2); T r = __atomic_fetch_and((volatile T *)a, v, __ATOMIC_SEQ_CST); EVE(a, 2); return r; } \
+  T __tsan_atomic##bits##_fetch_or(volatile void *a, T v, int) { EVB(a, 2); T r = __atomic_fetch_or((volatile T *)a, v, __ATOMIC_SEQ_CST); EVE(a, 2); return r; } \
+  T __tsan_atomic##bits##_fetch_xor(volatile void *a, T v, int) { EVB(a, 2); T r = __atomic_fetch_xor((volatile T *)a, v, __ATOMIC_SEQ_CST); EVE(a, 2); return r; } \
+  T __tsan_atomic##bits##_fetch_nand(volatile void *a, T v, int) { EVB(a, 2); T r = __atomic_fetch_nand((volatile T *)a, v, __ATOMIC_SEQ_CST); EVE(a, 2); return r; } \
+  bool __tsan_atomic##bits##_compare_exchange_strong(volatile void *a, void *e, T v, int, int) { EVB(a, 2); bool r = __atomic_compare_exchange_n((volatile T *)a, (T *)e, v, 0, __ATOMIC_SEQ_CST, __ATOMIC_SEQ_CST); EVE(a, 2); return r; } \
+  bool __tsan_atomic##bits##_compare_exchange_weak(volatile void *a, void *e, T v, int, int) { EVB(a, 2); bool r = __atomic_compare_exchange_n((volatile T *)a, (T *)e, v, 0, __ATOMIC_SEQ_CST, __ATOMIC_SEQ_CST); EVE(a, 2); return r; }
 AT(8, uint8_t) AT(16, uint16_t) AT(32, uint32_t) AT(64, uint64_t)
 void __tsan_atomic_thread_fence(int) { __atomic_thread_fence(__ATOMIC_SEQ_CST); }
 void __tsan_atomic_signal_fence(int) {}
